@@ -127,8 +127,8 @@ theorem nodeStep_rule (g : Graph Rat) (hg : GraphOK g) (res : Rat) (K : Nat) (st
       intro t ht
       have hbl : R.2.1 = st.labels.getD i 0 := by simpa using hstay
       rcases tbest with ⟨h1, _⟩ | ⟨hmem, _, _⟩
-      · rw [← hgain t ht, ← h1]
-        exact tmax t ((hcand t).mp ht)
+      · rw [← hgain t ht]
+        exact le_of_le_of_eq (tmax t ((hcand t).mp ht)) h1
       · exact absurd hbl ((mem_setErase _ _ _).mp hmem).2
 
 end SkNet.Modularity
